@@ -17,7 +17,7 @@ MEMBER_KINDS = [
     "m_bad_varint", "m_bad_header", "m_msg_len_past_end", "m_truncate_raw", "m_garbage_tail",
     "m_unknown_type", "m_no_message_infos", "m_zero_length",
 ]
-CONTAINER_KINDS = ["c_iwph", "c_plist_malformed", "c_plist_wrong_type", "c_zip_codec_damaged", "c_plist_missing", "c_build_missing", "c_dir_for_file", "c_empty_dir", "c_not_zip", "c_nested_index_damaged", "c_drop_member", "c_suffix"]
+CONTAINER_KINDS = ["c_iwph", "c_plist_malformed", "c_plist_wrong_type", "c_zip_codec_damaged", "c_metadata_names", "c_plist_missing", "c_build_missing", "c_dir_for_file", "c_empty_dir", "c_not_zip", "c_nested_index_damaged", "c_drop_member", "c_suffix"]
 ALL_KINDS = RAW_KINDS + MEMBER_KINDS + CONTAINER_KINDS
 
 
@@ -287,6 +287,42 @@ def _apply_container(path: str, f: dict) -> str:
         c.members[name] = [b"", b"bplist00", d[: len(d) // 2], b"<?xml version='1.0'?><plist><dict><key>x", bytes(reversed(d))][f["n"] % 5]
         write_container(path, c)
         return f"malformed {name}"
+    if kind == "c_metadata_names":
+        # the two metadata members under unusual names: one missing and the other present twice (under another
+        # folder, or as a second zip entry of the same name), both moved under a prefix, upper-cased, ...
+        pl, bv = "Metadata/Properties.plist", "Metadata/BuildVersionHistory.plist"
+        if pl not in c.members or bv not in c.members:
+            return ""
+        variant = f["n"] % 6
+        prefix = ["old/", "copy.numbers/", "x/y/", "Backup "][int(f["a"] * 4) % 4]
+        order = list(c.zip_order)
+        if variant == 0:
+            del c.members[pl]
+            c.members[prefix + bv] = c.members[bv]
+            order = [n for n in order if n != pl] + [prefix + bv]
+        elif variant == 1:
+            del c.members[bv]
+            c.members[prefix + pl] = c.members[pl]
+            order = [n for n in order if n != bv] + [prefix + pl]
+        elif variant == 2:
+            for n in (pl, bv):
+                c.members[prefix + n] = c.members.pop(n)
+            order = [prefix + n if n in (pl, bv) else n for n in order]
+        elif variant == 3:
+            c.members[prefix + pl] = c.members[pl]
+            c.members[prefix + bv] = b"not a plist"
+            order = order + [prefix + pl, prefix + bv]
+        elif variant == 4:
+            for n in (pl, bv):
+                c.members[n.upper()] = c.members.pop(n)
+            order = [n.upper() if n in (pl, bv) else n for n in order]
+        else:
+            del c.members[pl]
+            c.members[bv + ".bak/" + "BuildVersionHistory.plist"] = c.members[bv]
+            order = [n for n in order if n != pl] + [bv + ".bak/" + "BuildVersionHistory.plist"]
+        c.zip_order = order
+        write_container(path, c)
+        return f"metadata names variant {variant} prefix {prefix!r}"
     if kind == "c_plist_wrong_type":
         # a well-formed property list whose entries have unexpected types or are absent
         import datetime as _dt
